@@ -385,10 +385,57 @@ func VerifC03_q_scaleBetweenDeletes() {
 	verifAssert("C03/agree-sequential", w.agree(), "memory and store disagree")
 }
 
-// BOUND: topology 0; two statefulset pods ss-0, ss-1 bound (symbolic policy); ss-0 disappears without its event being handled (so a resync pass has API calls to make); a resync pass runs and, atomically inside any one window right before/after one of its API-server calls (symbolic window 0..10), ss-1 is re-incarnated: deleted, its event handled, re-created with a new UID, filtered and bound on any approved node. The IP of the new, unfinished incarnation must not be released by the pass (it decides on what it re-reads under the pod lock, not on its list)
+// BOUND: topology 0; two statefulset pods ss-0, ss-1 bound (symbolic policy); ss-0 disappears without its event being handled (so a resync pass has API calls to make); a resync pass runs and, atomically inside any one window right before/after one of its API-server calls (symbolic window 0..10), either ss-1 is re-incarnated (deleted, its event handled, re-created with a new UID, filtered and bound on any approved node) or the vanished ss-0 is re-created with a new UID, filtered and bound (parking at the pod key lock the pass holds). The IP of the new, unfinished incarnation must not be released by the pass (it decides on what it re-reads under the pod lock, not on its list)
 // ASSUME: C03: same scenario as VerifC04_q_resyncVsReincarnation, checked under C03
 func VerifC03_q_resyncVsReincarnation() { vpResyncVsReincarnation("C03") }
 
 // BOUND: topologies {0,1}; two pods whose names (and therefore keys) are in a prefix relation: statefulset pods ss-1 and ss-10 (replicas 11), or bare pods bare-1 and bare-10; symbolic policy; both bound; the shorter-named one ends (finished and/or deleted), its event is handled and / or a resync pass runs; then two more pods are scheduled. The release of the ended pod's IP must not release the IP of the longer-named pod, which is alive
 // ASSUME: C03: same scenario as VerifC01_q_prefixSiblings, checked under C03
 func VerifC03_q_prefixSiblings() { vpPrefixSiblings("C03") }
+
+// BOUND: topology 0; a statefulset (replicas 2) pod ss-0 with the immutable policy is bound, deleted and its event handled (the address stays reserved for ss-0); the statefulset is scaled to 0, so the next resync pass has to release the address; that pass runs while, as a second logical thread inside any one window right before/after one of its API-server / store / IPAM calls (symbolic window 0..18), the statefulset is scaled up again and ss-0 is re-created (new UID), filtered and bound; the second thread parks at the pod key lock the pass holds. Afterwards every live bound pod must own its address (the pass either released before the re-binding started, or saw the pod)
+func VerifC03_q_resyncVsRebindOfReserved() {
+	w := vpNewWorld(0, false)
+	if err := w.configure(); err != nil {
+		return
+	}
+	w.wrapIPAM()
+	w.setStatefulSet(2)
+	name := "ss-0"
+	w.createPod(vpMakePod(name, "U1", vpKindSts, "immutable", "", ""))
+	w.syncListers()
+	nodes, err := w.filter(name, "n1", "n5", "n3")
+	if err != nil || len(nodes) == 0 || w.bind(name, nodes[0]) != nil {
+		return
+	}
+	w.setRunning(name)
+	w.syncListers()
+	w.deletePod(name)
+	w.syncListers()
+	for len(w.pending) > 0 {
+		_ = w.handleEvent(0)
+	}
+	w.setStatefulSet(0)
+	w.syncListers()
+	w.interferer = func() {
+		w.setStatefulSet(2)
+		w.createPod(vpMakePod(name, "U2", vpKindSts, "immutable", "", ""))
+		w.syncListers()
+		nodes, err := w.filter(name, "n1", "n5", "n3")
+		if err != nil || len(nodes) == 0 {
+			return
+		}
+		if w.bind(name, nodes[nondetChoice(len(nodes))]) == nil {
+			w.setRunning(name)
+			w.syncListers()
+		}
+	}
+	w.windowAt = nondetInt(0, 18)
+	w.resync()
+	w.finishInterference()
+	if w.interferer != nil {
+		return
+	}
+	verifReach("rebind-of-reserved-inside-resync")
+	w.checkAll("C03", "a resync pass releasing a reserved address that overlapped the re-binding of its pod")
+}
